@@ -51,6 +51,8 @@ func (o opT) enc() []int64 {
 		return []int64{15, o.Prio.ID, o.Prio.Value, vh.B(o.Prio.Global)}
 	case 9, 10, 13:
 		return []int64{o.Code}
+	case 7:
+		return []int64{7, o.A[0], o.A[1], o.A[2]}
 	case 11:
 		return []int64{11, o.A[0], o.A[1], o.A[2], o.F}
 	case 12:
@@ -134,7 +136,9 @@ func decCase(in []int64) (ops []opT, ok bool) {
 			}
 		case 15:
 			o.Prio = cachectl.PrioSpec{ID: pos(), Value: next(), Global: next() != 0}
-		case 2, 4, 6, 7, 8, 14, 16:
+		case 7:
+			o.A = []int64{pos(), next(), next()}
+		case 2, 4, 6, 8, 14, 16, 17:
 			o.A = []int64{pos()}
 		case 9, 10, 13:
 		case 11:
@@ -173,7 +177,7 @@ func apply(c *cachectl.Ctl, o opT) int64 {
 	case 6:
 		c.PGDelete(o.A[0])
 	case 7:
-		c.QueueEvent(o.A[0])
+		c.QueueEvent(o.A[0], o.A[1], o.A[2])
 	case 8:
 		c.QueueDelete(o.A[0])
 	case 9:
@@ -190,6 +194,8 @@ func apply(c *cachectl.Ctl, o opT) int64 {
 		c.PrioEvent(o.Prio)
 	case 16:
 		c.PrioDelete(o.A[0])
+	case 17:
+		c.JobStatusUpdate(o.A[0])
 	}
 	return 0
 }
@@ -200,7 +206,7 @@ func freshFromFinal(ops []opT) *cachectl.Ctl {
 	pods := map[int64]cachectl.PodSpec{}
 	nodes := map[int64]cachectl.NodeX{}
 	pgs := map[int64]cachectl.PGSpec{}
-	queues := map[int64]bool{}
+	queues := map[int64][2]int64{}
 	prios := map[int64]cachectl.PrioSpec{}
 	for _, o := range ops {
 		switch o.Code {
@@ -217,7 +223,7 @@ func freshFromFinal(ops []opT) *cachectl.Ctl {
 		case 6:
 			delete(pgs, o.A[0])
 		case 7:
-			queues[o.A[0]] = true
+			queues[o.A[0]] = [2]int64{o.A[1], o.A[2]}
 		case 8:
 			delete(queues, o.A[0])
 		case 15:
@@ -240,7 +246,7 @@ func freshFromFinal(ops []opT) *cachectl.Ctl {
 		c.NodeEvent(nodes[id])
 	}
 	for _, id := range sched.SortedIDs(queues, func(k int64) int64 { return k }) {
-		c.QueueEvent(id)
+		c.QueueEvent(id, queues[id][0], queues[id][1])
 	}
 	return c
 }
@@ -288,26 +294,30 @@ func quiescent(ops []opT) bool {
 	if n < 2 || ops[n-2].Code != 10 || ops[n-1].Code != 9 {
 		return false
 	}
-	pending := map[int64]bool{}
+	// the syntactic condition of C08/Lemmas3.v acked_quiescent: a successful bind / eviction is
+	// acknowledged by a later pod notification that carries a node name (an update without one is
+	// the update UpdatePod ignores) or by the pod's delete; a pod gone from the API server by its
+	// delete (or a re-creation)
+	await, gone := map[int64]bool{}, map[int64]bool{}
 	for _, o := range ops {
 		switch o.Code {
-		case 11:
+		case 11, 12:
 			if o.OK {
-				pending[o.A[1]] = true
-			}
-		case 12:
-			if o.OK {
-				pending[o.A[1]] = true
+				await[o.A[1]] = true
 			}
 		case 14:
-			pending[o.A[0]] = true // the delete notification is still owed
+			gone[o.A[0]] = true
 		case 1:
-			delete(pending, o.Pod.ID)
+			if o.Pod.Node != 0 {
+				delete(await, o.Pod.ID)
+			}
+			delete(gone, o.Pod.ID)
 		case 2:
-			delete(pending, o.A[0])
+			delete(await, o.A[0])
+			delete(gone, o.A[0])
 		}
 	}
-	return len(pending) == 0
+	return len(await) == 0 && len(gone) == 0
 }
 
 // split the output of selector 1 at the step markers
